@@ -11,7 +11,10 @@ CLAIMED = {
         "text": "Full-strength Lean theorems over the model of bins.bins for ALL integer pairs and both conventions "
                 "(integer result, out-of-range -> bin 1, containment + minimality of the single bin, exact membership "
                 "characterisation of the bin set, bin-of-feature in bin-set-of-query for overlapping and for nested "
-                "intervals without any well-ordering assumption). The model is tied to bins.py by an exhaustive "
+                "intervals without any well-ordering assumption); every Feature the line parser builds, and every row "
+                "written to the table (also after the coordinates of a feature object were changed), carries exactly the "
+                "bin of its coordinates, an integer or None for '.' coordinates (feature_bin, row_bin, "
+                "row_bin_follows_coords, calcBin_eq_none_iff). The model is tied to bins.py by an exhaustive "
                 "boundary-pair correspondence (every pair of coordinates within +-2 of bin boundaries at every level, "
                 "0 and 2^29) plus random pairs, by a constants comparison with the live module, and Feature.bin is "
                 "compared too. An independent interval-arithmetic oracle judges the real code.",
@@ -28,8 +31,10 @@ CLAIMED["C07"] = {
             "trailing semicolon, k=v / k v, quoting, repeated keys vs comma lists, flags, percent-escapes, any number "
             "of attributes/values) the inferring parser returns exactly the specified mapping and dialect "
             "(infer_render) and printing it with keep_order reproduces the attribute text byte for byte "
-            "(reconstruct_render, print_parse_render_attrs). The line level (columns, '.' coordinates, extra columns, "
-            "the strict=False space rendering) is covered by the correspondence and the oracle, not yet by a theorem. "
+            "(reconstruct_render, print_parse_render_attrs). Line level: for every WF line specification (columns, '.' "
+            "coordinates, extra columns) feature_from_line returns the specified Feature and printing it with keep_order "
+            "reproduces the whole line byte for byte (parse_render_line, print_parse_render); with strict=False the "
+            "space-separated rendering of a WFspaces specification parses to the same Feature (nonstrict_spaces). "
             "The model is tied to the code by rendered specs over all dialect combinations, an exhaustive malformed "
             "stream and the repository's data files; the oracle (byte comparison on the real code) judges exactly the "
             "WF specs.",
@@ -46,7 +51,12 @@ CLAIMED["C08"] = {
             "mapping with distinct keys free of ';' '=' and non-empty lists of non-empty ARBITRARY strings, re-parsing "
             "the printed attributes with the same dialect returns the same mapping, and the printed text contains no "
             "tab/CR/LF; the same for quoted GTF dialects with values free of ';' and ','. The unquoted-GTF case fails "
-            "on the real code (known finding D14; negation witness proved in Lean). Correspondence: 36 dialect "
+            "on the real code (known finding D14; negation witness proved in Lean). Feature level: for every Feature "
+            "with tab/CR/LF-free columns, extra columns and keys (any coordinates incl. '.', any number of extra "
+            "columns) in a GFF3-style or quoted-GTF dialect, str(feature) is the tab-join of the nine specified columns "
+            "plus the extra columns, contains exactly 8 + len(extra) tabs and no line break, and re-parsing it with the "
+            "same dialect returns the same Feature (all columns, attributes, extra, dialect; bin recomputed) "
+            "(feature_print_reparse_gff3 / _gtf / _no_attrs, printReparse_columns). Correspondence: 36 dialect "
             "dictionaries x Unicode mappings, every code point for the isspace / \\w / splitlines tables, all 1-2 byte "
             "percent escapes, exhaustive short strings; oracle: re-parse equality, tab count, no exception.",
     "note": "Trusted: Lean kernel + standard axioms; model of urllib.parse.unquote incl. CPython's UTF-8 'replace' decoder "
@@ -60,7 +70,13 @@ CLAIMED["C09"] = {
             "dialect it was written in, incl. fmt, separators, quoting, trailing semicolon, repeated keys, key order); "
             "helpers._choose_dialect is the weighted majority with ties to the value seen first (vote_spec), a "
             "unanimous window returns that dialect (choose_consistent), the key order is the duplicate-free first-seen "
-            "concatenation, empty input gives constants.dialect. Correspondence + oracle: infer_dialect on rendered "
+            "concatenation, empty input gives constants.dialect; a supplied dialect is returned and stamped on every "
+            "feature verbatim, every line is parsed with it and the result does not depend on checklines "
+            "(supplied_verbatim, supplied_ignores_checklines); without one the reported dialect is the vote over the "
+            "window (inferred_is_vote); create_db routes to the GFF importer iff force_gff or fmt = gff3, to the GTF "
+            "importer iff fmt = gtf and not force_gff, and fails otherwise (routing); a file whose window lines are "
+            "all written in one dialect is voted exactly that dialect and routed accordingly "
+            "(consistent_file_dialect, consistent_file_fmt). Correspondence + oracle: infer_dialect on rendered "
             "specs, _choose_dialect on two-value mixtures with weights 0-5 (all ties), DataIterator.dialect for files "
             "and every checklines, supplied dialect verbatim, FeatureDB.dialect after import and reopen, GFF3/GTF "
             "routing.",
@@ -266,8 +282,13 @@ CLAIMED["C01"] = {
             "rows and query results (reopen_same); re-importing the printed features gives the same tables "
             "(reimport_equivalent); per line: the supplied-dialect parse of a rendered line returns its mapping, the "
             "keep_order print under any consistent foreign order reproduces it, rows round-trip through storage, and the "
-            "JSON storage form round-trips (C17). Not covered by a theorem: sort_attribute_values=True, the GTF importer "
-            "and non-ID id_specs (correspondence and oracle only). Correspondence end to end on generated files of "
+            "JSON storage form round-trips (C17). sort_attribute_values=True prints the same text whenever each value "
+            "list is sorted as written (reconstruct_sort_irrelevant, printed_identical_sorted; sortedness of the decoded "
+            "values is not enough because _reconstruct sorts the percent-encoded values: raw_sorted_not_enough). GTF "
+            "importer: the input lines are stored once each, in order, before the derived rows, come back with their "
+            "columns, attributes and extra columns, print byte-identically with keep_order, and reopening gives the same "
+            "content (import_all_once_in_order_gtf, printed_identical_gtf, printed_identical_gtf_file, reopen_same_gtf). "
+            "Not covered by a theorem: non-ID id_specs in the identity statement (correspondence and oracle only). Correspondence end to end on generated files of "
             "0-30 lines around checklines and on the repository's data files; oracle: byte comparison after import, "
             "reopen, re-import.",
     "note": "Trusted: Lean kernel + standard axioms; the models of the parser, iterator, importer and tables as validated "
@@ -280,9 +301,11 @@ CLAIMED["C13"] = {
     "text": "Lean theorems over the iterator model for all inputs: the dialect peek takes the first min(n+1, len) items "
             "and leaves a one-shot source unchanged (peek_preserves); all seven input forms iterate to the specification "
             "for every checklines, supplied or inferred dialect, with or without transform (iterate_eq); text forms and "
-            "feature forms of the same annotation give the identical (dialect, features) result under the explicit "
-            "hypothesis that every line parses alike with the inferring parser and with the voted dialect "
-            "(forms_equivalent); the transform is applied exactly once per item in order and exactly the falsy results "
+            "feature forms of the same annotation give the identical (dialect, features) result for every file whose "
+            "lines are well-formed renderings in one dialect, for every checklines, transform and supplied dialect "
+            "carrying the file's separators (forms_equivalent_wf; the general form under the hypothesis that every line "
+            "parses alike with the inferring parser and the voted dialect is forms_equivalent; both extra conditions "
+            "are shown necessary by proved counterexamples wfprov_not_enough, supplied_dims_needed); the transform is applied exactly once per item in order and exactly the falsy results "
             "are dropped (transform_once); inspect reports exact multiset counts for every look_for and limit. "
             "Correspondence over 7 forms x checklines 0..n+2 x 6 transforms for n = 1..15 (LF and CRLF), create_db over "
             "all forms, instrumented generators counting next() calls; oracle: cross-form equality of sequences, "
